@@ -105,7 +105,10 @@ def spec(rng, ndim=None, dims=None, sizes=None, kinds=None, orders=None, dtype='
         orders = [orders] * n
     labs = [labels(rng, s, k, o) for s, k, o in zip(sizes, kinds, orders)]
     return {"dims": dims, "labels": labs, "kinds": list(kinds),
-            "values": values(rng, tuple(sizes), dtype, nan)}
+            "values": values(rng, tuple(sizes), dtype, nan),
+            # history: 30 % of the arrays have had their axes' ordering queried (as an earlier align / a + b would do),
+            # so that lookups run with the monotonicity cache populated
+            "prime": rng.random() < 0.3}
 
 
 def build(sp, meta=True, as_list=False):
@@ -124,4 +127,7 @@ def build(sp, meta=True, as_list=False):
         a._attrs.update(monitors.sentinel_attrs())
     if "attrs" in sp:
         a._attrs.update(sp["attrs"])
+    if sp.get("prime"):
+        for ax in a.axes:
+            ax.is_monotonic()
     return a
